@@ -16,5 +16,5 @@ fi
 [ "$1" = "--" ] && shift
 git -C "$W" diff --stat | tail -1
 for p in "$@"; do
-  NSV_REPO="$W" /verif/check "$p" 2>&1 | grep -E "key:|^C[0-9]+ tier|MACHINERY" | sed 's/^ *key: /   /' | head -12
+  NSV_REPO="$W" /verif/check "$p" 2>&1 | grep -E "key:|^C[0-9]+ tier|MACHINERY" | sed 's/^ *key: /   /' | head -40
 done
